@@ -66,6 +66,37 @@ def containsVia {Oid Pack : Type} (midx : Oid → Option Pack) (base : Oid → B
     | some _ => true
     | none => base o
 
+/-! ### reachability providers (`GraphTraversalReachability` vs `BitmapReachability`) on a finite DAG
+
+Commits are numbers, the history is a parent function.  Both walks are fuel-bounded (fuel = number of commits
+suffices on a DAG); results are duplicate-free lists compared as sets (`sameSet`). -/
+
+/-- `_collect_ancestors(store, heads, common)`: breadth-first from `heads`; a commit in `common` is not
+entered (and not reported) — its ancestors can still be reached along other paths. -/
+def collectAncestors (parents : Nat → List Nat) (common : List Nat) : Nat → List Nat → List Nat → List Nat
+  | 0, _, seen => seen
+  | _ + 1, [], seen => seen
+  | fuel + 1, e :: queue, seen =>
+    if common.contains e ∨ seen.contains e then collectAncestors parents common fuel queue seen
+    else collectAncestors parents common fuel (queue ++ parents e) (seen ++ [e])
+
+/-- `GraphTraversalReachability.get_reachable_commits(heads, exclude)` -/
+def traversalReach (parents : Nat → List Nat) (fuel : Nat) (heads exclude : List Nat) : List Nat :=
+  collectAncestors parents exclude fuel heads []
+
+/-- the bitmap `build_reachability_bitmap` stores for one commit: its ancestry, restricted to the pack -/
+def bitmapOf (parents : Nat → List Nat) (fuel : Nat) (pack : List Nat) (c : Nat) : List Nat :=
+  (collectAncestors parents [] fuel [c] []).filter pack.contains
+
+/-- `BitmapReachability.get_reachable_commits(heads, exclude)`: OR of the heads' bitmaps minus OR of the
+excluded commits' bitmaps -/
+def bitmapReach (parents : Nat → List Nat) (fuel : Nat) (pack : List Nat) (heads exclude : List Nat) : List Nat :=
+  let inc := (heads.flatMap (bitmapOf parents fuel pack)).eraseDups
+  let exc := exclude.flatMap (bitmapOf parents fuel pack)
+  inc.filter (fun c => !exc.contains c)
+
+def sameSet (a b : List Nat) : Bool := a.all b.contains && b.all a.contains
+
 /-! ### bitmap header gate (`read_bitmap_file` + `Pack.bitmap`) -/
 
 /-- `Pack.bitmap`: the checksum recorded in the bitmap header must equal the pack's own trailer checksum,
